@@ -571,12 +571,19 @@ class _parser:
                 # ambiguous (DST overlap) in that zone
                 tz_offset = timedelta(hours=0)
 
+            # the zone may put the nearest occurrence on another calendar day than
+            # the one of self.now, in either direction and more than one day away
+            one_day = timedelta(days=1)
             if "past" in self.settings.PREFER_DATES_FROM:
-                if self.now < dateobj - tz_offset:
-                    dateobj = dateobj + timedelta(days=-1)
+                while self.now < dateobj - tz_offset:
+                    dateobj = dateobj - one_day
+                while self.now >= dateobj - tz_offset + one_day:
+                    dateobj = dateobj + one_day
             if "future" in self.settings.PREFER_DATES_FROM:
-                if self.now > dateobj - tz_offset:
-                    dateobj = dateobj + timedelta(days=1)
+                while self.now > dateobj - tz_offset:
+                    dateobj = dateobj + one_day
+                while self.now <= dateobj - tz_offset - one_day:
+                    dateobj = dateobj - one_day
 
         # Reset dateobj to the original value, thus removing any offset awareness that may
         # have been set earlier.
